@@ -388,7 +388,10 @@ class SNum:
         raise Unsupported("builtin float() on a symbolic number (namespace not injected)")
 
     def __index__(self):
-        raise Unsupported("symbolic number used as an index")
+        if not self.is_int:
+            # python: floats have no __index__ ("can't multiply sequence by non-int of type 'float'", list indices must be integers)
+            raise TypeError("'float' object cannot be interpreted as an integer")
+        raise Unsupported("symbolic integer used as an index / repeat count")
 
     def __str__(self):
         return cur().token_for(self, made_by_code=_caller_is_code())
